@@ -164,6 +164,24 @@ func newC15World(m *vk.M, idx int, r *rand.Rand, svcs []string) *c15World {
 	return w
 }
 
+// newC15WorldUnbound: a world whose endpoints are not bound to the model etcd
+// yet (the first client creation dials them for real).
+func newC15WorldUnbound(m *vk.M, idx int, r *rand.Rand, svcs []string, eps []string) *c15World {
+	if c15Wedged.Load() {
+		return &c15World{m: m, idx: idx, r: r, svcs: svcs, incon: true, wedged: true}
+	}
+	return &c15World{
+		m: m, idx: idx, r: r,
+		eps:      eps,
+		etcd:     newC15Etcd(),
+		svcs:     svcs,
+		known:    map[string]map[string]string{},
+		valOf:    map[string]string{},
+		carriers: map[string]map[string]bool{},
+		reloaded: make(chan struct{}, 16),
+	}
+}
+
 func (w *c15World) endpoints() []string { return append([]string(nil), w.eps...) }
 
 func (w *c15World) dispose() {
@@ -838,6 +856,9 @@ func (w *c15World) expect(s *c15Sub) (must, may map[string]bool) {
 
 func (w *c15World) checkSub(s *c15Sub, got []string, phase string) bool {
 	w.nChecks++
+	if w.tag != "" {
+		phase = w.tag
+	}
 	gs := c15Set(got)
 	if len(gs) != len(got) {
 		sort.Strings(got)
